@@ -111,6 +111,9 @@ class Session:
         self.expected_alarm_events = []
         self.subscribed = False
         self.subscribed52 = False
+        self.second_report = False   # event 50 is linked to a second report (4003: the auxiliary value) as well
+        self.received_second = []
+        self.triggered_with_second = 0
         self.calls = 0
         self.hist = []
         self.bad = False
@@ -125,7 +128,15 @@ class Session:
             vals = [v["value"] for v in data["values"]]
         except Exception:
             ceid, vals = None, []
+        try:
+            rptid = data["rptid"].get() if hasattr(data["rptid"], "get") else data["rptid"]
+        except Exception:
+            rptid = None
         with self.lock:
+            if ceid == 50 and rptid == 4003:
+                # the second report linked to event 50 (the auxiliary value): counted on its own
+                self.received_second.append(vals[:1])
+                return
             if ceid in (50, 21) and vals:
                 self.received.append((ceid, vals[0]))
                 if ceid == 50 and len(vals) != len(self.cur_dvs):
@@ -388,6 +399,7 @@ class Session:
                     self.hist.append(f"trigger([50]) counter={n}")
                     eq.trigger_collection_events([50])
                     self.triggered.append((50, n))
+                    self.triggered_with_second += self.second_report
                     self.wait_events()
         elif r < 0.94 and self.subscribed:
             from secsgem.gem import CollectionEventId
@@ -411,6 +423,7 @@ class Session:
                 self.ctx.count("oracle.events_triggered_next_to_unsubscribed_ids")
             for c in linked:
                 self.triggered.append((c, n))
+                self.triggered_with_second += (c == 50 and self.second_report)
             if linked:
                 self.wait_events()
         elif r < 0.97:
@@ -438,10 +451,24 @@ class Session:
             self.violation("subscribe_collection_event-fails", error=repr(err)[:200])
             return
         self.subscribed = True
+        self.second_report = False
         link = self.eq.registered_collection_events.get(50)
         if link is None or not link.enabled or list(link.reports) != [4000]:
             self.violation("subscription-not-registered-at-equipment")
             return
+        if self.ctx.rng.random() < 0.4:
+            # a second subscription for the same event: its reports are both sent, in link order, and each reaches the listeners
+            self.hist.append("subscribe_collection_event(50,[31]) as a second report")
+            _, err = self.call("subscribe", lambda: self.host.subscribe_collection_event(50, [31], report_id=4003))
+            if err is not None and not self.bad:
+                self.violation("subscribe_collection_event-fails", error=repr(err)[:200], second_report=True)
+                return
+            link = self.eq.registered_collection_events.get(50)
+            if link is None or not link.enabled or list(link.reports) != [4000, 4003]:
+                self.violation("subscription-not-registered-at-equipment", second_report=True)
+                return
+            self.second_report = True
+            self.ctx.count("sessions.event_with_two_reports")
         # one of the library's own collection events (CMD_STOP_DONE = 21), to be triggered through its enumeration member
         _, err = self.call("subscribe", lambda: self.host.subscribe_collection_event(21, [30], report_id=4001))
         if err is not None and not self.bad:
@@ -516,6 +543,18 @@ class Session:
             dup = [list(n) for n in sorted({n for n in got if got.count(n) > 1})]
             self.violation(f"collection-events-not-exactly-once:{'lost' if missing else 'duplicated' if dup else 'unexpected'}:{where}",
                            triggered=self.triggered[-10:], received=got[-10:], missing=missing[:5], duplicated=dup[:5])
+            return
+        with self.lock:
+            second = list(self.received_second)
+        if len(second) != self.triggered_with_second:
+            end = time.monotonic() + 3
+            while time.monotonic() < end and len(self.received_second) < self.triggered_with_second:
+                time.sleep(0.005)
+            with self.lock:
+                second = list(self.received_second)
+        if len(second) != self.triggered_with_second or any(v != [4711] for v in second):
+            self.violation(f"second-report-of-an-event-not-handed-to-the-host-once-per-trigger:{where}",
+                           triggers_with_two_reports=self.triggered_with_second, second_reports_received=second[-6:])
             return
         if sorted(alarms) != sorted(self.expected_alarm_events):
             self.violation(f"alarm-reports-not-exactly-once:{where}", expected=self.expected_alarm_events[-8:], received=alarms[-8:])
